@@ -67,7 +67,8 @@ Record h5gen := {
   g_refusals : list (string * bool); g_delay_units : list (string * bool); g_select : list selprobe;
   g_zero : list (string * string * string * bool);
   g_precision : list (string * string * string * bool); g_merge : list (string * bool);
-  g_strings : list (string * bool); g_skel : skeleton; g_opt : list otable }.
+  g_strings : list (string * bool); g_skel : skeleton; g_opt : list otable;
+  g_popsel : list (bool * string * string * bool * bool) }.
 
 (* ------------------------------------------------------------------ small boolean equalities *)
 Definition cst_eqb (a b : cst) : bool :=
@@ -770,7 +771,6 @@ Definition select_covers (g : h5gen) : bool :=
                                          | None => true end) (sfields kind)
                        && existsb (fun p => String.eqb (sp_kind p) kind && String.eqb (sp_off p) "") (g_select g))
           ["projection"; "electrical"; "continuous"; "inputlist"; "population"].
-Definition select_ok (g : h5gen) : bool := forallb (selprobe_ok g) (g_select g) && select_covers g.
 (* a value 0 in a field whose default is not 0 (fractions, weights) is written as 0, for every variant that carries the field *)
 Definition zero_ok (g : h5gen) : bool :=
   forallb (fun x => snd x) (g_zero g)
@@ -794,5 +794,17 @@ Definition merge_ok (g : h5gen) : bool :=
   forallb (fun n => match assoc n (g_merge g) with Some b => b | None => false end)
     ["idless_component_types_all_merged"; "idless_properties_all_merged"; "same_id_same_list_not_duplicated";
      "order_of_the_others_kept"; "same_id_in_other_lists_merged"; "source_untouched"].
+(* whether a population gets its location table depends on the presence of <instance> children only (that is the decision of
+   write_cgroup: dc_rows empty or not), never on its type attribute or its size; and the size the loader will report is the
+   number of instances resp. the size attribute.  (has instances, type, size class, table written, size ok) *)
+Definition popsel_ok (g : h5gen) : bool :=
+  forallb (fun x => let '(has, _, _, written, size_ok) := x in Bool.eqb written has && (size_ok || (negb has))) (g_popsel g)
+  && forallb (fun has => forallb (fun t => forallb (fun sc =>
+        existsb (fun x => let '(h, t', sc', _, _) := x in Bool.eqb h has && String.eqb t' t && String.eqb sc' sc) (g_popsel g))
+        ["unset"; "equal"; "other"]) ["None"; "population"; "populationList"]) [true; false].
+Definition failing_popsel (g : h5gen) : list (bool * string * string) :=
+  map (fun x => let '(h, t, sc, _, _) := x in (h, t, sc))
+      (filter (fun x => let '(has, _, _, written, size_ok) := x in negb (Bool.eqb written has && (size_ok || negb has))) (g_popsel g)).
+Definition select_ok (g : h5gen) : bool := forallb (selprobe_ok g) (g_select g) && (select_covers g && popsel_ok g).
 Definition failing_select (g : h5gen) : list (string * string * list (option string)) :=
   map (fun p => (sp_kind p, sp_off p, sp_names p)) (filter (fun p => negb (selprobe_ok g p)) (g_select g)).
